@@ -9,8 +9,6 @@ From JV Require Import Model.LexBase Model.LexTokeniter Spec.LexPlainSpec Spec.L
 Open Scope N_scope.
 
 Record skel_cfg (c : cfg) (txt : N -> bool) : Prop := {
-  sc_nl : c_nlseq c = [10];
-  sc_keep : c_keep c = false;
   sc_ok : cfg_ok c = true;
   sc_txt13 : forall x, txt x = true -> (x =? 13) = false;
   sc_no13 : no13 (c_bs c) && no13 (c_be c) && no13 (c_vs c) && no13 (c_ve c) && no13 (c_cs c) && no13 (c_ce c) = true;
@@ -70,7 +68,7 @@ Proof.
 Qed.
 
 Theorem skel_render_cfg : forall c txt, skel_cfg c txt -> forall sk, skel_wf txt sk = true ->
-  render_data c (unparse c sk) = Some (spec_trim (c_trim c) (c_lstrip c) [] sk).
+  render_data c (unparse c sk) = Some (nl_subst (c_nlseq c) (spec_trim_k (c_keep c) (c_trim c) (c_lstrip c) sk)).
 Proof.
   intros c txt H. apply (skel_render c txt); try (apply H).
   - intros prev l x Y e Hx He. unfold root_alts. rewrite (alt_raw_shape c l x Y e Hx He). reflexivity.
@@ -124,9 +122,9 @@ Ltac solve_fresh Hx :=
   rewrite ?(alt_plain_head _ _ _ _ Hx); reflexivity.
 
 (* ------------------------------------------------------------------ default delimiters *)
-Lemma skel_cfg_default : forall t l, skel_cfg (cfg_default t l false [10]) (txt_of 123).
+Lemma skel_cfg_default : forall t l k seq, skel_cfg (cfg_default t l k seq) (txt_of 123).
 Proof.
-  intros t l. constructor; try reflexivity.
+  intros t l k seq. constructor; try reflexivity.
   - apply txt_of_13.
   - intros prev x w Hx. apply txt_of_head in Hx. solve_fresh Hx.
   - intros x w Hx. apply txt_of_head in Hx. unfold alt_endraw. cbn -[N.eqb]. rewrite !Hx. reflexivity.
@@ -139,9 +137,9 @@ Proof.
 Qed.
 
 (* ------------------------------------------------------------------ $% %$  ${ }  $# #$ *)
-Lemma skel_cfg_dollar : forall t l, skel_cfg (cfg_dollar t l false [10]) (txt_of 36).
+Lemma skel_cfg_dollar : forall t l k seq, skel_cfg (cfg_dollar t l k seq) (txt_of 36).
 Proof.
-  intros t l. constructor; try reflexivity.
+  intros t l k seq. constructor; try reflexivity.
   - apply txt_of_13.
   - intros prev x w Hx. apply txt_of_head in Hx. solve_fresh Hx.
   - intros x w Hx. apply txt_of_head in Hx. unfold alt_endraw. cbn -[N.eqb]. rewrite !Hx. reflexivity.
@@ -159,9 +157,25 @@ Definition cfg_asp (trim lstrip keep : bool) (nlseq : str) : cfg :=
   mkcfg [60; 37] [37; 62] [60; 37; 61] [37; 62] [60; 37; 35] [35; 37; 62] None None
         trim lstrip nlseq keep ascii_digit ascii_word.
 
-Lemma skel_cfg_asp : forall t l, skel_cfg (cfg_asp t l false [10]) (txt_of 60).
+Lemma skel_cfg_asp : forall t l k seq, skel_cfg (cfg_asp t l k seq) (txt_of 60).
 Proof.
-  intros t l. constructor; try reflexivity.
+  intros t l k seq. constructor; try reflexivity.
+  - apply txt_of_13.
+  - intros prev x w Hx. apply txt_of_head in Hx. solve_fresh Hx.
+  - intros x w Hx. apply txt_of_head in Hx. unfold alt_endraw. cbn -[N.eqb]. rewrite !Hx. reflexivity.
+  - intros prev m Y. destruct m; reflexivity.
+  - intros prev m Y. destruct m; reflexivity.
+  - intros prev m Y. destruct m; reflexivity.
+  - solve_block_in.
+  - solve_var_in.
+  - solve_comment_in.
+Qed.
+
+(* ------------------------------------------------------------------ <% %>  <%= %>  <!-- --> : an end string that
+   starts with '-' (end_head_ok: "-->" differs from "->" inside its tail) *)
+Lemma skel_cfg_angle : forall t l k seq, skel_cfg (cfg_angle t l k seq) (txt_of 60).
+Proof.
+  intros t l k seq. constructor; try reflexivity.
   - apply txt_of_13.
   - intros prev x w Hx. apply txt_of_head in Hx. solve_fresh Hx.
   - intros x w Hx. apply txt_of_head in Hx. unfold alt_endraw. cbn -[N.eqb]. rewrite !Hx. reflexivity.
@@ -174,20 +188,25 @@ Proof.
 Qed.
 
 (* ------------------------------------------------------------------ corollaries *)
-(* C12: the whole-template refinement, every skeleton *)
+(* C12: the whole-template refinement, every skeleton, every newline_sequence / keep flag *)
+Theorem trim_refines_default_gen : forall t l k seq sk, skel_wf (txt_of 123) sk = true ->
+  render_data (cfg_default t l k seq) (unparse (cfg_default t l k seq) sk) = Some (nl_subst seq (spec_trim_k k t l sk)).
+Proof. intros t l k seq sk H. exact (skel_render_cfg _ _ (skel_cfg_default t l k seq) sk H). Qed.
+
 Theorem trim_refines_default : forall t l sk, skel_wf (txt_of 123) sk = true ->
   render_data (cfg_default t l false [10]) (unparse (cfg_default t l false [10]) sk) = Some (spec_trim t l [] sk).
-Proof. intros t l sk H. exact (skel_render_cfg _ _ (skel_cfg_default t l) sk H). Qed.
+Proof. intros t l sk H. rewrite (trim_refines_default_gen t l false [10] sk H), nl_subst_id. reflexivity. Qed.
 
-(* C13: any two configurations satisfying the bundle, with the same trim / lstrip settings,
-   give the same data on every skeleton whose texts are delimiter-free for both *)
+(* C13: any two configurations satisfying the bundle, with the same trim / lstrip / keep /
+   newline_sequence settings, give the same data on every skeleton whose texts are delimiter-free for both *)
 Theorem delimiter_invariance : forall c c' txt txt' sk,
   skel_cfg c txt -> skel_cfg c' txt' -> c_trim c = c_trim c' -> c_lstrip c = c_lstrip c' ->
+  c_keep c = c_keep c' -> c_nlseq c = c_nlseq c' ->
   skel_wf txt sk = true -> skel_wf txt' sk = true ->
   render_data c (unparse c sk) = render_data c' (unparse c' sk).
 Proof.
-  intros c c' txt txt' sk H H' Et El Hw Hw'.
-  rewrite (skel_render_cfg c txt H sk Hw), (skel_render_cfg c' txt' H' sk Hw'), Et, El. reflexivity.
+  intros c c' txt txt' sk H H' Et El Ek En Hw Hw'.
+  rewrite (skel_render_cfg c txt H sk Hw), (skel_render_cfg c' txt' H' sk Hw'), Et, El, Ek, En. reflexivity.
 Qed.
 
 (* well-formedness is monotone in the text character class *)
